@@ -35,7 +35,17 @@ func genC17World(r *Rng) *Plan {
 		{Email: "carol@example.com", Verified: true, Groups: []string{"eng", "sec"}},
 		{Email: "dave@example.com", Verified: true, Groups: []string{"none"}},
 	}
+	nested := cfg.Provider == "google" && r.Chance(1, 3)
+	if nested {
+		// a group that is a member of another: dave belongs to eng (or all) only through contractors
+		users[3].Groups = []string{"contractors"}
+	}
 	p := &Plan{Cfg: cfg, Users: users, Gen: "groups-" + cfg.Provider}
+	parent := r.Pick("eng", "eng", "all")
+	if nested {
+		p.Gen += "+nested"
+		p.Steps = append(p.Steps, Step{Op: "idp", Sub: "nest", Name: parent, Str: "contractors"})
+	}
 	names := []string{"alice@example.com", "bob@example.com", "carol@example.com", "dave@example.com"}
 	for i, u := range names[:r.Range(2, 4)] {
 		p.Steps = append(p.Steps, Step{Op: "login", B: string(rune('a' + i)), User: u, Host: cfg.Routes[r.Intn(nUp)].From, Target: "/"})
@@ -68,6 +78,17 @@ func genC17World(r *Rng) *Plan {
 					kinds = append(kinds, "stall")
 				}
 				p.Steps = append(p.Steps, Step{Op: "net", Name: "auth>" + idpBack, Sub: kinds[r.Intn(len(kinds))], Arg: r.Range(1, 4), Arg2: r.Range(10, 200)})
+			}
+		case 6:
+			if nested && !faulting {
+				// the listing of the member group fails (for a while, or once) while the parent's own listing works: the fetch as a whole failed
+				faulting = true
+				st := r.Pick0(429, 503, 500, 503, 404)
+				p.Steps = append(p.Steps, Step{Op: "l3", Endpoint: "dir-list:contractors", Sticky: r.Chance(2, 3), L3: []Answer{{Status: st, Body: `{"error":{"code":` + itoa(st) + `,"message":"injected"}}`, Tag: "nested-" + itoa(st)}}})
+			}
+		case 7:
+			if nested && r.Chance(1, 2) {
+				p.Steps = append(p.Steps, Step{Op: "idp", Sub: r.Pick("unnest", "nest"), Name: parent, Str: "contractors"})
 			}
 		case 5:
 			if r.Chance(1, 3) {
